@@ -263,6 +263,7 @@ class Recorder:
             event=str(ev) if ev is not None else None,
             t_src=getattr(getattr(tr, "source", None), "id", None),
             t_dst=getattr(getattr(tr, "target", None), "id", None),
+            tid=id(tr) if tr is not None else None,
             state=getattr(kwargs.get("state"), "id", None),
         )
         if v == "raise":
